@@ -196,9 +196,11 @@ def c05_4(rep, ix):
         rep.ok(R, ix.site(f), "no reshape of a flattened element list")
         return
     rs = reshapes[0]
-    okr = len(rs.args) == 2 and u(rs.args[1]) == "-1" and isinstance(rs.args[0], ast.Name)
+    # the row count is a counter, or the length of a list that receives one entry per row
+    rows_len = rs.args[0].args[0].id if len(rs.args) == 2 and isinstance(rs.args[0], ast.Call) and u(rs.args[0].func) == "len" and len(rs.args[0].args) == 1 and isinstance(rs.args[0].args[0], ast.Name) else None
+    okr = len(rs.args) == 2 and u(rs.args[1]) == "-1" and (isinstance(rs.args[0], ast.Name) or rows_len is not None)
     rep.check(okr, R, ix.site(f, rs), "`%s`: rows first, columns inferred (row-major)" % u(rs), "got `%s`" % u(rs), key="reshape")
-    rows = u(rs.args[0]) if okr else None
+    rows = u(rs.args[0]) if okr and rows_len is None else None
     # the row counter counts arrayrow children
     rowloop = [l for l in walk_shallow(fn) if isinstance(l, ast.For) and "arrayval().getChildren()" in u(l.iter)]
     if len(rowloop) != 1:
@@ -207,10 +209,21 @@ def c05_4(rep, ix):
     rowif = [s for s in rl.body if isinstance(s, ast.If) and "ArrayrowContext" in u(s.test)]
     if len(rowif) != 1:
         raise Inconclusive("exitArrayvar: ArrayrowContext filter not recognised")
-    body = rowif[0].body
+    # `if isinstance(row, ArrayrowContext): <body>`  or the guard clause  `if not isinstance(row, ArrayrowContext): continue` + <rest of the loop body>
+    tst = rowif[0].test
+    if isinstance(tst, ast.UnaryOp) and isinstance(tst.op, ast.Not) and len(rowif[0].body) == 1 and isinstance(rowif[0].body[0], ast.Continue) and not rowif[0].orelse:
+        body = rl.body[rl.body.index(rowif[0]) + 1:]
+    else:
+        body = rowif[0].body
     rv = u(rl.target)
-    inc = [s for s in body if isinstance(s, ast.AugAssign) and u(s.target) == rows and isinstance(s.op, ast.Add) and u(s.value) == "1"]
-    rep.check(len(inc) == 1, R, ix.site(f, rl), "the row count is incremented once per arrayrow child", key="row count")
+    if rows_len is not None:
+        inc = [s for s in body if isinstance(s, ast.Expr) and isinstance(s.value, ast.Call) and isinstance(s.value.func, ast.Attribute) and s.value.func.attr == "append" and u(s.value.func.value) == rows_len]
+        other = [n for n in ast.walk(fn) if isinstance(n, ast.Call) and isinstance(n.func, ast.Attribute) and u(n.func.value) == rows_len and n.func.attr in ("append", "extend", "insert", "pop", "remove", "clear")
+                 and not any(n is s_.value for s_ in inc)]
+        rep.check(len(inc) == 1 and not other, R, ix.site(f, rl), "the list whose length is the row count receives one entry per arrayrow child", key="row count")
+    else:
+        inc = [s for s in body if isinstance(s, ast.AugAssign) and u(s.target) == rows and isinstance(s.op, ast.Add) and u(s.value) == "1"]
+        rep.check(len(inc) == 1, R, ix.site(f, rl), "the row count is incremented once per arrayrow child", key="row count")
     # guard idioms
     guard = None
     # (a) a set/list of per-row lengths filled inside the row loop, tested after it
@@ -254,9 +267,16 @@ def c05_5(rep, ix, R="C05.5"):
         raise Inconclusive("exitArrayvar: parameters.append((index, symbol)) not recognised")
     symsrc = resolved_text(fn, apps[0].args[0].elts[1], stmt_of(fn, apps[0])) if len(apps[0].args[0].elts) == 2 else ""
     rep.check(symsrc.startswith("_expression("), R, ix.site(f, apps[0]), "the recorded symbol is the value of evaluating that element", "records `%s`" % symsrc, key="symbol eval")
-    idx = " ".join(u(apps[0].args[0].elts[0]).split())
-    good = idx in ("len(value) + len(parameters)", "len(parameters) + len(value)")
     ie = apps[0].args[0].elts[0]
+    if isinstance(ie, ast.Name):
+        # the position bound to a local just before it is recorded
+        defs = [n for n in walk_shallow(fn) if isinstance(n, ast.Assign) and len(n.targets) == 1 and isinstance(n.targets[0], ast.Name) and n.targets[0].id == ie.id]
+        st_app = stmt_of(fn, apps[0])
+        if len(defs) == 1 and pos(defs[0]) < pos(st_app) and not any(isinstance(x, ast.Call) and isinstance(x.func, ast.Attribute) and x.func.attr == "append" and pos(defs[0]) < pos(x) < pos(st_app)
+                                                                  for x in walk_shallow(fn)):
+            ie = defs[0].value
+    idx = " ".join(u(ie).split())
+    good = idx in ("len(value) + len(parameters)", "len(parameters) + len(value)")
     if not good and isinstance(ie, ast.BinOp) and isinstance(ie.op, ast.Add):
         # row-major arithmetic: <row index> * <row length> + <column index>, indices from enumerate() over the rows / the entries of a row
         mul, col = (ie.left, ie.right) if isinstance(ie.left, ast.BinOp) else (ie.right, ie.left)
